@@ -23,6 +23,7 @@ func genNames(s *src, o *out) {
 	format := ""
 	statShape := 0
 	sprintfs := 0
+	loopOK := false
 	ast.Inspect(f.Body, func(n ast.Node) bool {
 		switch n := n.(type) {
 		case *ast.GenDecl:
@@ -49,10 +50,16 @@ func genNames(s *src, o *out) {
 				}
 			}
 		case *ast.ForStmt:
-			if s.text(n.Init) == "i := 0" && s.text(n.Post) == "i++" {
-				if b, ok := n.Cond.(*ast.BinaryExpr); ok && b.Op == token.LSS && s.text(b.X) == "i" {
+			// the bound of the probing loop is read from any `for ...; i < N; ...`; whether the loop is
+			// the one the model transcribes is a separate value (loopOK)
+			if b, ok := n.Cond.(*ast.BinaryExpr); ok && b.Op == token.LSS && s.text(b.X) == "i" {
+				func() {
+					defer func() { _ = recover() }() // a bound that is not a constant expression stays unread
 					tries = s.evalInt(b.Y, nil, 0)
-				}
+				}()
+			}
+			if s.text(n) == `for i := 0; i < `+s.text(n.Cond)[len("i < "):]+`; i++ { newName := fmt.Sprintf("%s.%d", name, i) if _, err := os.Stat(filepath.Join(path, newName)); os.IsNotExist(err) { return newName, nil } }` {
+				loopOK = true
 			}
 		case *ast.CallExpr:
 			if s.text(n.Fun) == "fmt.Sprintf" {
@@ -67,11 +74,27 @@ func genNames(s *src, o *out) {
 		}
 		return true
 	})
-	if maxLen < 0 || tries < 0 {
-		die("getNewName has an unexpected shape (maxNameLen=%d tries=%d)", maxLen, tries)
+	// the probing loop the model transcribes: `for i := 0; i < N; i++ { candidate; if free { return
+	// candidate, nil } }` DIRECTLY followed by `return "", <error>` as the last statement: the only way out
+	// of an exhausted series is the error.  Anything else (another exit, a test between loop and error)
+	// is translated as names_getnewname_loop_ok = false: the pin lemma of Proofs/Names.v fails then
+	// (C07, C09 only), everything else stays buildable.  A bound or limit that cannot be read is 0.
+	if l := f.Body.List; loopOK && len(l) >= 2 {
+		_, isFor := l[len(l)-2].(*ast.ForStmt)
+		last := s.text(l[len(l)-1])
+		loopOK = isFor && last == `return "", simpleTrzszError("Fail to assign new file name to %s", name)`
+	} else {
+		loopOK = false
+	}
+	if maxLen < 0 {
+		maxLen = 0
+	}
+	if tries < 0 {
+		tries, loopOK = 0, false
 	}
 	o.defN("names_max_len", maxLen)
 	o.defN("names_max_tries", tries)
+	o.raw("Definition names_getnewname_loop_ok : bool := %v.\n", loopOK && maxLen > 0)
 	// a candidate that is not built by exactly one Sprintf with a literal format and the arguments
 	// (name, i), or a changed existence test, is translated as "unknown": the pin lemma of
 	// Proofs/Names.v then fails (C07, C09 only), everything else stays buildable
